@@ -10,6 +10,6 @@ Proof.
   intro i; open_input i; cbn [i_endpoint i_cfg i_reg i_pres i_grant i_router i_pl i_prev].
   all: intros -> -> Hgap Hno.
   all: unfold model, known_gap in *; cbn [i_endpoint i_cfg i_reg i_pres i_grant i_router i_pl i_prev] in *.
-  all: destruct p as [| |[] ?| |[]|[]|[]| | | |[] []|?|?|?|?|?|[] []]; try discriminate Hno; clear Hno.
+  all: destruct p as [| |[] ?| |[]|[]|[]| | | |[] []|?|?|?|?|?|[] []|?]; try discriminate Hno; clear Hno.
   all: destruct g; cbn in Hgap |- *; destruct meth; cbn in Hgap |- *; split_goal.
 Qed.
